@@ -132,6 +132,8 @@ type ptrHolder struct {
 
 func toGo(v Value) interface{} {
 	switch v.T {
+	case "shape":
+		return shapeOfKind(v.Kind)
 	case "time":
 		return time.Unix(int64(v.I), 0).UTC()
 	case "ptrstruct": // a struct with a pointer field: its text must not show the address
@@ -494,4 +496,91 @@ func snap(sb *strings.Builder, v reflect.Value, depth int) {
 	default:
 		fmt.Fprintf(sb, "%T:%v", v.Interface(), v.Interface())
 	}
+}
+
+// shapeOfKind: Go values of every shape a context can hold (C05)
+func shapeOfKind(kind string) interface{} {
+	five := 5
+	p5 := &five
+	switch kind {
+	case "nil":
+		return nil
+	case "true":
+		return true
+	case "int0":
+		return 0
+	case "int5":
+		return 5
+	case "intneg":
+		return -1
+	case "float":
+		return 2.5
+	case "strempty":
+		return ""
+	case "str":
+		return "a"
+	case "strnum":
+		return "12"
+	case "listempty":
+		return []interface{}{}
+	case "listmixed":
+		return []interface{}{1, "a", nil, []interface{}{2}}
+	case "strs":
+		return []string{"b", "a"}
+	case "ints":
+		return []int{3, 1}
+	case "arr3":
+		return [3]int{3, 1, 2}
+	case "mapany":
+		return map[string]interface{}{"a": 1, "b": nil, "c": map[string]interface{}{"d": []interface{}{}}}
+	case "mss":
+		return map[string]string{"a": "x"}
+	case "mis":
+		return map[int]string{1: "x", 2: "y"}
+	case "msl":
+		return map[string][]int{"a": {1, 2}}
+	case "mapempty":
+		return map[string]interface{}{}
+	case "struct":
+		return S1{X: 1, Y: "y"}
+	case "ptrstruct":
+		return &S1{X: 1, Y: "y"}
+	case "nilptrstruct":
+		var p *S1
+		return p
+	case "embedded":
+		return S5{S3: S3{Z: 4, Base: Base{W: "w", X: 3}}, Q: 6}
+	case "methods":
+		return &S6{X: 7}
+	case "ptrptr":
+		return &p5
+	case "nilslice":
+		var xs []interface{}
+		return xs
+	case "nilmap":
+		var m map[string]interface{}
+		return m
+	case "func":
+		return func() {}
+	case "chan":
+		return make(chan int)
+	case "time":
+		return time.Unix(1136214245, 0).UTC()
+	case "bytes":
+		return []byte("<b>")
+	case "err":
+		return errors.New("boom")
+	case "iface":
+		var x interface{} = map[string]interface{}{"a": []string{"z"}}
+		return &x
+	case "uint8":
+		return uint8(200)
+	case "int64":
+		return int64(1) << 40
+	case "float32":
+		return float32(1.5)
+	case "nested":
+		return map[string]interface{}{"a": map[string]interface{}{"b": map[string]interface{}{"c": []interface{}{map[string]interface{}{"d": 1}}}}}
+	}
+	return nil
 }
